@@ -11,7 +11,7 @@ COQ = os.path.join(HERE, 'coq')
 
 
 def statement(header, lemma):
-    src = header + '\nSet Printing Width 110.\nSet Printing Depth 100000.\nCheck %s.\n' % lemma
+    src = header + '\nSet Printing Width 110.\nSet Printing Depth 100000.\nCheck @%s.\n' % lemma
     p = os.path.join(HERE, 'build', 'mkprops_%d.v' % os.getpid())
     open(p, 'w').write(src)
     r = subprocess.run(['coqc', '-Q', COQ, 'ME', p], stdout=subprocess.PIPE, stderr=subprocess.STDOUT, text=True, timeout=600)
@@ -21,6 +21,8 @@ def statement(header, lemma):
     if r.returncode != 0:
         raise SystemExit('cannot Check %s:\n%s' % (lemma, r.stdout[-800:]))
     out = r.stdout
+    if ('@' + lemma + '\n     : ') in out or ('@' + lemma + ' : ') in out:
+        lemma = '@' + lemma
     i = out.rindex(lemma + '\n     : ') if (lemma + '\n     : ') in out else out.rindex(lemma + ' : ') if (lemma + ' : ') in out else None
     if i is None:
         raise SystemExit('cannot find the statement of %s in:\n%s' % (lemma, out[-600:]))
@@ -49,7 +51,7 @@ def main(pid):
         st = statement(header, lemma)
         if comment.strip():
             out.append('(* %s *)' % comment.strip())
-        out.append('Theorem %s :\n  %s.\nProof. exact %s. Qed.\nPrint Assumptions %s.' % (name, st.replace('\n', '\n  '), lemma, name))
+        out.append('Theorem %s :\n  %s.\nProof. exact (@%s). Qed.\nPrint Assumptions %s.' % (name, st.replace('\n', '\n  '), lemma, name))
     path = os.path.join(COQ, 'Properties', pid + '.v')
     open(path, 'w').write('\n'.join(out) + '\n')
     r = subprocess.run(['coqc', '-Q', COQ, 'ME', path], stdout=subprocess.PIPE, stderr=subprocess.STDOUT, text=True, timeout=900)
